@@ -126,7 +126,7 @@ Eff(s, i) ==
     [] i.k = "Set" -> One([s EXCEPT !.val = [@ EXCEPT ![i.v] = i.x]], O(9, <<>>, FALSE))
 
 (* ---- input alphabets of the generator / the random drivers                                    *)
-VidLists == {<<>>, <<"sv">>, <<"dv">>, <<"sv", "dv">>, <<"vu">>}
+VidLists == {<<>>, <<"sv">>, <<"dv">>, <<"sv", "dv">>, <<"vu">>, <<"sv", "vu">>, <<"vu", "dv">>}     \* incl. known and unknown variables mixed
 DefEntries == [r : RPT, vids : VidLists]
 RptLists == {<<>>, <<"r1">>, <<"r2">>, <<"r1", "r2">>, <<"r1", "r1">>, <<"r9">>}
 LinkEntries == [c : CEX, rpts : RptLists]
@@ -145,7 +145,7 @@ Inputs ==
   \cup {[k |-> "Set", v |-> v, x |-> x] : v \in VID, x \in {0, 1}}
 
 CoreInputs ==
-  {[k |-> "Define", es |-> <<>>]} \cup {[k |-> "Define", es |-> <<e>>] : e \in [r : RPT, vids : {<<>>, <<"sv">>, <<"sv", "dv">>, <<"vu">>}]}
+  {[k |-> "Define", es |-> <<>>]} \cup {[k |-> "Define", es |-> <<e>>] : e \in [r : RPT, vids : {<<>>, <<"sv">>, <<"sv", "dv">>, <<"vu">>, <<"sv", "vu">>}]}
   \cup {[k |-> "Link", es |-> <<e>>] : e \in [c : CEX, rpts : {<<>>, <<"r1">>, <<"r2">>, <<"r1", "r1">>, <<"r9">>}]}
   \cup {[k |-> "Enable", en |-> b, cs |-> cs] : b \in BOOLEAN, cs \in {<<>>, <<"c1">>, <<"c1", "cu">>}}
   \cup {[k |-> "Request", c |-> c] : c \in CEX}
